@@ -723,6 +723,35 @@ fn run_wasm(job: &Job, res: &mut RunResult) {
                 }
                 script.push(format!("import_words {ws:?}"));
                 res.count("c16_import_words", 1);
+                if prop == "C16" && rng.chance(1, 3) {
+                    // straight away, with no lint call in between: ignore one of the lints that the
+                    // import cannot have removed (state that a lazy implementation has not caught up with)
+                    let cands: Vec<usize> = (0..actual.len())
+                        .filter(|&i| {
+                            let flagged: String = text[actual[i].span.start..actual[i].span.end.min(text.len())].iter().collect();
+                            !(actual[i].lint_kind.is_spelling() && ws.iter().any(|w| norm(w) == norm(&flagged)))
+                        })
+                        .collect();
+                    if !cands.is_empty() {
+                        let k = *rng.pick(&cands);
+                        // is that very lint still produced in the new state?
+                        let mut fresh = fresh_linter(&m, Some(&long.export_ignored_lints()));
+                        let now = inner_lints(&fresh.lint(s.clone(), lang(markdown)));
+                        if now.contains(&actual[k]) {
+                            let l = harper_wasm::Lint::from_json(actual_w[k].to_json()).expect("lint json");
+                            long.ignore_lint(s.clone(), l);
+                            let dict = merged_dict(&m.words);
+                            let doc = Document::new_from_vec(Arc::new(text.clone()), &parser_for(markdown), &dict);
+                            m.tracked.push(Tracked { fat: fat_view(&actual[k], &doc), id: identity(&actual[k], &doc), span: Some((actual[k].span.start, actual[k].span.end)), markdown });
+                            script.push(format!("ignore_lint #{k} '{}' (right after import_words)", actual[k].message));
+                            res.count("c16_ignore_right_after_import", 1);
+                            let after = inner_lints(&long.lint(s.clone(), lang(markdown)));
+                            if after.contains(&actual[k]) {
+                                viol(res, "C16", "ignore_removes_exactly_that_lint", "ignore_effect", format!("{what}: ignore_lint of '{}' called right after import_words({ws:?}) has no effect: the lint is still returned", actual[k].message), json!({"after_import": true}));
+                            }
+                        }
+                    }
+                }
                 // imported words are no longer misspelt (C07's JS half), and export returns them
                 let after = inner_lints(&long.lint(s.clone(), lang(markdown)));
                 for l in &after {
